@@ -357,7 +357,10 @@ class Body:
 
     @property
     def live_blocks(self):
-        return self.reachable_from(0)
+        lv = getattr(self, "_live", None)
+        if lv is None:
+            lv = self._live = frozenset(self.reachable_from(0))
+        return lv
 
     # ---- dominators ----------------------------------------------------------------------
     def _compute_dom(self, succ, pred, entry):
